@@ -55,6 +55,8 @@ def run(ctx):
             import stream_extra
             return stream_extra.run_extra(ctx)
         return pc.replay(ctx, TRACE_CFG)
+    import stream_extra
+    _bg_stream = vlib.background(ctx, stream_extra.run_extra, "stream_extra")
     T = ctx.thorough()
     rng = random.Random(ctx.seed)
     ctx.assumptions += [
@@ -158,8 +160,7 @@ def run(ctx):
         ctx.sample({"name": r["name"], "steered": r["steered"], "trace": r["trace"][:60]})
 
     # ---- DoH / DoQ (one private request / stream per call): spec/StreamPerQuery.tla, harness/drv_stream
-    import stream_extra
-    stream_extra.run_extra(ctx)
+    _bg_stream.join()
 
     # ---- the same property on the connection pools (reuse.go, pipeline.go + conn_lazy_dial.go):
     # spec/ReuseConn.tla, spec/LazyPipeline.tla, harness/drv_pool (checks/pool_extra.py)
